@@ -44,7 +44,7 @@ def cases(tier, seed):
                                [(3, 65), (4, 130), (70, 2), (3, 64), (130, 1), (2, 257), (5, 300), (260, 3), (33, 33), (1, 1025)]):
         out.append({'kind': 'wide', 'seed': case_seed('C04', seed, 'wide', N, M), 'params': {'N': N, 'M': M, 'rec': RECS[k % 4]}})
     for pr in progs.cat():
-        if len(pr.ins) >= 2 and not ({'refused', 'nopb', 'fancy', 'nonunique'} & pr.tags) and pr.name not in ('dot:TM', 'dot:MT'):
+        if len(pr.ins) >= 2 and not ({'refused', 'nopb', 'fancy', 'augmented', 'nonunique'} & pr.tags) and pr.name not in ('dot:TM', 'dot:MT'):
             for rep in range(1 if tier == 'quick' else 10):
                 out.append({'kind': 'gradlist', 'seed': case_seed('C04', seed, 'gradlist', pr.name, rep), 'params': {'prog': pr.name, 'rec': RECS[(rep + len(pr.name)) % 4]}})
     return out
